@@ -277,6 +277,10 @@ def register(gen, T):
         the text the Lean model was transcribed from (Model/OverloadSrc.lean)."""
         expr = T.src("typer/src/typer/expressions.rs")
         scopes = T.src("typer/src/typer/scopes.rs")
+        types = T.src("typer/src/typer/types.rs")
+        functions = T.src("typer/src/typer/functions.rs")
+        casting = T.src("typer/src/casting.rs")
+        ir_expr = T.src("ir/src/ir_expressions.rs")
 
         def squash(text):
             return re.sub(r'\s+', '', text)
@@ -289,6 +293,19 @@ def register(gen, T):
         fis = squash(fn_body(scopes, "find_identifier_in_scope"))
         ifs = squash(fn_body(scopes, "insert_function_in_scope"))
         gsm = squash(fn_body(scopes, "get_struct_member_expression"))
+        # the routines around the resolution proper: instantiating a candidate's signature (may fail since 5dca4fc) and
+        # the check of out / inout arguments that follows a successful resolution (b359800, 3758fdd)
+        atts = squash(fn_body(types, "apply_template_type_substitution"))
+        # occurrence 0 is the declaration in `trait ApplyTemplates`, occurrence 1 the impl for ir::FunctionSignature
+        apt = squash(fn_body(functions, "apply_templates", 1))
+        bfts = squash(fn_body(scopes, "build_function_template_signature"))
+        bit = squash(fn_body(scopes, "build_intrinsic_template"))
+        coa = squash(fn_body(expr, "check_output_arguments"))
+        cmp_ = squash(fn_body(expr, "check_mutable_place"))
+        wfn = squash(fn_body(expr, "write_function"))
+        wme = squash(fn_body(expr, "write_method"))
+        app = squash(impl_fn_body(casting, r'ImplicitConversion', "apply"))
+        gty = squash(fn_body(ir_expr, "get_type"))
         E = re.escape
         facts = [
             # ---- find_function_type
@@ -345,6 +362,31 @@ def register(gen, T):
                "letety=ExpressionType(required_type.type_id,required_type.input_modifier.into());"
                "ifletOk(cast)=ImplicitConversion::find(*source_type,ety,&mutcontext.module){overload_casts.push(cast)}"
                "else{returnErr(());}}Ok((id,overload_casts))") + "$"),
+            ("uninstantiableTemplateNotViable", foc,
+             E("{matchcontext.build_intrinsic_template(id,&inferred_args){Some(id)=>id,None=>returnErr(()),}}"
+               "else{matchcontext.build_function_template_signature(id,&inferred_args){Some(id)=>id,None=>returnErr(()),}};")),
+            # ---- instantiating the signature of a template candidate
+            ("signatureSubstitutionFailsAsAWhole", apt,
+             "^" + E("forparam_typein&mutself.param_types{param_type.type_id=apply_template_type_substitution("
+                     "param_type.type_id,template_args,context)?;}self.return_type.return_type="
+                     "apply_template_type_substitution(self.return_type.return_type,template_args,context)?;Some(self)") + "$"),
+            ("templateInstantiationPropagatesTheFailure", bfts,
+             E("letsignature=base_signature.clone().apply_templates(template_args,self)?;")),
+            ("intrinsicInstantiationPropagatesTheFailure", bit,
+             E("letsignature=signature.clone().apply_templates(template_args,self)?;")),
+            # ---- what follows a successful resolution: the casts are applied, then out / inout arguments are checked
+            ("functionCallChecksOutputsAfterCasts", wfn,
+             E("let(id,casts)=find_function_type(&unresolved.overloads,template_args,param_types,call_location,context,)?;"
+               "letparam_values=apply_casts(casts,param_values,context);"
+               "check_output_arguments(id,&param_values,call_location,context)?;")),
+            ("methodCallChecksOutputsAfterCasts", wme,
+             E("let(id,casts)=find_function_type(&unresolved.overloads,template_args,param_types,call_location,context,)?;"
+               "letmutparam_values=apply_casts(casts,param_values,context);"
+               "check_output_arguments(id,&param_values,call_location,context)?;")),
+            ("applyKeepsTheExpressionOnlyWithoutAnyCast", app,
+             "^" + E("ifletImplicitConversion(_,_,None,None,None)=*self{returnexpr;}") + ".*" +
+             E("Expression::Cast(target_type.0,Box::new(expr))") + "$"),
+            ("aCastIsAnRvalue", gty, E("Expression::Cast(ty,_)=>Ok(ty.to_rvalue()),")),
             # ---- who hands over which overload list
             ("innermostScopeWithTheNameWins", fid,
              E("ifletSome(ve)=self.find_identifier_in_scope(scope,leaf_name){returnOk(ve);}}"
@@ -359,7 +401,9 @@ def register(gen, T):
              E("foridin&self.module.struct_registry[id.0asusize].methods{letfunction_name=self.module.function_registry"
                ".get_function_name(*id);iffunction_name==name.node{overloads.push(*id);}}")),
         ]
-        out = [T.header("ResolveShape", ["typer/src/typer/expressions.rs", "typer/src/typer/scopes.rs"])]
+        out = [T.header("ResolveShape", ["typer/src/typer/expressions.rs", "typer/src/typer/scopes.rs",
+                                         "typer/src/typer/types.rs", "typer/src/typer/functions.rs",
+                                         "typer/src/casting.rs", "ir/src/ir_expressions.rs"])]
         out.append("/-- syntactic facts about the resolution routines (each a regular expression over the comment- and\n"
                    "    white-space-free source); `false` = the source no longer has the shape the model transcribes -/\n")
         out.append("structure Shape where\n" + "".join(f"  {k} : Bool\n" for k, _, _ in facts) + "  deriving DecidableEq, Repr\n\n")
@@ -383,7 +427,8 @@ def register(gen, T):
                          member)
         out.append(f"def objectMethodsAreAllFunctionsOfThatName : Bool := {'true' if objm else 'false'}\n\n")
         for name, text in [("findFunctionType", fft), ("findOverloadCasts", foc), ("tryInferTemplateType", tit),
-                           ("normalizeTemplateType", ntt)]:
+                           ("normalizeTemplateType", ntt), ("applyTemplateTypeSubstitution", atts),
+                           ("checkOutputArguments", coa), ("checkMutablePlace", cmp_)]:
             out.append(f"/-- body of `{name}` without comments and white space -/\ndef {name}Src : String :=\n  {lean_str(text)}\n\n")
         out.append(T.footer("ResolveShape"))
         return "".join(out)
